@@ -104,7 +104,7 @@ fn one<const D: usize>(id: &str, rng: &mut Rng, out: &mut Out, nq: usize, nops: 
 
 pub fn run(cfg: &Cfg, rng: &mut Rng, out: &mut Out) {
     let thorough = cfg.tier == "thorough";
-    let n = if thorough { 400 } else { 48 };
+    let n = if thorough { 400 } else { 120 };
     for i in 0..n {
         let id = format!("u{i}");
         let (nq, nops) = if thorough { (24, 12) } else { (12, 6) };
